@@ -241,10 +241,77 @@ def bcb_field_mutants(data, rng):
     return out
 
 
+def check_partial_keys(case, obs):
+    ''' Two confidentiality policies match one bundle (the payload and an extension block, different key ids) and the key of one
+    of them is not in the key store.  Whatever the source then does, a confidentiality block that is on the wire names only
+    blocks whose data is not their plaintext, carries one result per target and decrypts independently. '''
+    import re
+    from vf.world.sim import Sim
+    from vf import sec_harness as sh
+    from vf import bp_harness as bh
+    from bp.app import bpsec
+    from bp.util import BundleContainer
+    from vf.gen import bundles as gen
+    rng = random.Random(case['seed'] + 4242)
+    problems = []
+    for missing in ('payload', 'extension', 'none'):
+        for rep in range(3):
+            sim = Sim(0, 'eager')
+            src = bh.BpNode(sim, sh.SRC_NODE, name='src', tx_routes=[dict(pattern=r'.*')])
+            ctx = src.bpsec_ctx()
+            ctx.sec_assoc = []
+            ctx.sym_key_store[b'ek'] = sh.sym_key(b'ek', sh.ENC_KEY, 'A256GCM', 'enc')
+            ctx.sym_key_store[b'ek128'] = sh.sym_key(b'ek128', sh.ENC_KEY128, 'A128GCM', 'enc')
+            kids = {'payload': b'ek', 'extension': b'ek128'}
+            if missing in kids:
+                kids[missing] = b'not-provisioned'
+            order = [('payload', 1), ('extension', 192)]
+            if rep % 2:
+                order.reverse()
+            for (name, btype) in order:
+                ctx.sec_assoc.append(bpsec.SecAssociation(
+                    src_pat=re.compile('.*'), dst_pat=re.compile('.*'), tgt_blk_types=[btype],
+                    templates=[bpsec.SecOperation(sec_type='bcb', role='source', priv_key_id=kids[name],
+                                                  content_iv=[bytes([rng.randrange(256)] * 12), bytes([rng.randrange(256)] * 12)])]))
+            plain = bytes(((pos * 29) ^ rep ^ 0x5a) & 0xFF for pos in range(rng.choice([8, 16, 40])))
+            ext_plain = bytes(((pos * 7) ^ 0x11) & 0xFF for pos in range(10))
+            pri = dict(version=7, flags=0, crc_type=rep % 3, dest='dtn://dst-node/app', src=sh.SRC_NODE + 'app', report_to='dtn:none',
+                       create_time=820540000000 + rep, seqno=rep, lifetime=3600000, frag_offset=None, total_adu_len=None, crc=None)
+            bundle = dict(primary=pri, blocks=[dict(type=192, num=4, flags=0, crc_type=rep % 3, data=ext_plain, crc=None),
+                                               dict(type=1, num=1, flags=0, crc_type=rep % 3, data=plain, crc=None)])
+            src.send(BundleContainer(gen.to_real(bundle)))
+            sim.settle(5000)
+            obs['partial_key_sends'] = obs.get('partial_key_sends', 0) + 1
+            for data in src.cl.datas():
+                try:
+                    dec, _issues = bpv7.decode(data)
+                except bpv7.DecodeError as err:
+                    problems.append(('wire', 'key of the %s policy missing: the transmitted bundle does not decode: %s' % (missing, err)))
+                    continue
+                by_num = {blk['num']: blk for blk in dec['blocks']}
+                for bcb in [blk for blk in dec['blocks'] if blk['type'] == 12]:
+                    obs['partial_key_bcbs_on_wire'] = obs.get('partial_key_bcbs_on_wire', 0) + 1
+                    try:
+                        asb = cb.parse_asb(bcb['data'])
+                    except Exception as err:  # pylint: disable=broad-except
+                        problems.append(('wire', 'key of the %s policy missing: the confidentiality block on the wire does not parse: %s' % (missing, err)))
+                        continue
+                    if len(asb['results']) != len(asb['targets']):
+                        problems.append(('wire', 'key of the %s policy missing: the confidentiality block names %d target(s) %r and carries %d result array(s)' % (
+                            missing, len(asb['targets']), asb['targets'], len(asb['results']))))
+                    for tnum in asb['targets']:
+                        want = {1: plain, 4: ext_plain}.get(tnum)
+                        if want is not None and tnum in by_num and bytes(by_num[tnum]['data']) == want:
+                            problems.append(('plaintext-on-wire', 'key of the %s policy missing: a confidentiality block on the wire names block %d as its '
+                                             'target and that block carries its plaintext' % (missing, tnum)))
+    return problems
+
+
 def cases(tier, seed):
     out = []
     thorough = tier == 'thorough'
     idx = 0
+    out.append(dict(id='partial-keys', kind='partial-keys', cose='enc0-256', seed=seed))
     for kind in KINDS:
         for lidx, plen in enumerate(LENGTHS):
             out.append(dict(id='roundtrip-%s-%d' % (kind, plen), kind='roundtrip', cose=kind, plen=plen, seed=seed * 211 + idx, reps=4 if thorough else 1))
@@ -327,7 +394,9 @@ def run_case(case):
 
     try:
         kind = case['kind']
-        if kind == 'roundtrip':
+        if kind == 'partial-keys':
+            note(check_partial_keys(case, obs), b'partial-keys', 'two confidentiality policies, one key not provisioned')
+        elif kind == 'roundtrip':
             cose = case['cose']
             ivs = set()
             for rep in range(case['reps'] * 2):
